@@ -216,6 +216,58 @@ pub fn run(ctx: &mut Ctx) {
                 format!("code={} dirs={}", o.status.code().unwrap_or(-1), have.join(","))
             });
         }
+        // 7b. chains of steps in one invocation where a command removes a directory tree after
+        // writing (a "bundle the staging directory, then rm -rf it" step): a later step with an
+        // output there needs the directory created AGAIN before it starts
+        let ncases = if ctx.thorough() { 300 } else { 60 };
+        for _ in 0..ncases {
+            let nsteps = 2 + ctx.rng.below(3);
+            let mut steps: Vec<(Vec<String>, Option<String>)> = vec![];
+            let mut fno = 0;
+            for _ in 0..nsteps {
+                let nouts = 1 + ctx.rng.below(2);
+                let mut outs = vec![];
+                for _ in 0..nouts {
+                    let depth = ctx.rng.below(3);
+                    let mut comps: Vec<String> = vec![];
+                    for _ in 0..depth { comps.push(["da", "db"][ctx.rng.below(2)].to_string()); }
+                    comps.push(format!("f{}", fno)); fno += 1;
+                    outs.push(comps.join("/"));
+                }
+                let rm = if ctx.rng.chance(1, 2) { Some(["da", "db", "da/da", "da/db", "db/da"][ctx.rng.below(5)].to_string()) } else { None };
+                if rm.is_some() { ctx.count("outchain_rm"); }
+                steps.push((outs, rm));
+            }
+            ctx.count("outchain_cases");
+            let mut case = String::from("n2bin outchain");
+            for (outs, rm) in &steps {
+                case.push_str(&format!(" S {}", outs.len()));
+                for o in outs { case.push(' '); case.push_str(&hex(o.as_bytes())); }
+                case.push(' ');
+                match rm { Some(d) => case.push_str(&hex(d.as_bytes())), None => case.push('~') }
+            }
+            ctx.emit(&case, || {
+                tp.reset();
+                let cands = ["da", "db", "da/da", "da/db", "db/da", "db/db"];
+                let mut m = String::from("rule r\n  command = for d in $dirs; do test -d \"$$d\" && echo \"$$d\"; done > probe$idx.log; touch $out; $rm\n");
+                for (i, (outs, rm)) in steps.iter().enumerate() {
+                    let dep = if i > 0 { format!(" || {}", steps[i - 1].0[0]) } else { String::new() };
+                    m.push_str(&format!("build {}: r{}\n  dirs = {}\n  idx = {}\n  rm = {}\n", outs.join(" "), dep, cands.join(" "), i,
+                        match rm { Some(d) => format!("rm -rf {}", d), None => "true".to_string() }));
+                }
+                std::fs::write("build.ninja", m).unwrap();
+                let o = Command::new(&bin).arg("-j").arg("4").output();
+                let Ok(o) = o else { return "spawn-failed".into() };
+                let mut sets = vec![];
+                for i in 0..steps.len() {
+                    let probe = std::fs::read_to_string(format!("probe{}.log", i)).unwrap_or_default();
+                    let mut have: Vec<String> = probe.lines().map(|l| hex(l.as_bytes())).collect();
+                    have.sort(); have.dedup();
+                    sets.push(have.join(","));
+                }
+                format!("code={} dirs={}", o.status.code().unwrap_or(-1), sets.join(";"))
+            });
+        }
         ctx.emit("n2bin fds", || {
             tp.reset();
             // four commands at once, each listing its descriptors while the others run
